@@ -205,6 +205,7 @@ def run_path(cset, fc, prefix, res, opts):
         if outcome[0] == "return" and fc.epilogue is not None:
             # what the environment does next (e.g. the event loop running callbacks that became due during the call)
             try:
+                I.result = outcome[1]            # the returned value is visible to the environment step
                 fc.epilogue(I, I.frames[0].env)
             except Raised as r:
                 outcome = ("raise", r.exc)
